@@ -24,6 +24,12 @@ TIMEOUT = {"quick": 900, "thorough": 3000}
 VALID = [("H2O", "O"), ("EtOH", "CCO"), ("Na+", "[Na+]"), ("SO4^2-", "[O-]S(=O)(=O)[O-]"), ("U", "[U]"),
          ("D2O", "[2H]O[2H]")]
 INVALID = [("bad1", "C(("), ("bad2", "Xx")]
+# strings that are SMILES syntax but not molecules (valence / aromaticity), and entries whose *formula* is the
+# SMILES of another entry (so that a removal by formula can be confused with a removal by SMILES)
+IMPOSSIBLE = [("pentavalentC", "C(C)(C)(C)(C)C"), ("badarom", "c1cccc1"), ("F3", "F(F)F"), ("N5", "N(C)(C)(C)C")]
+ALIAS_OPS = [("add", "CH4O", "CO"), ("add", "CO", "[C-]#[O+]"), ("add", "H2O", "O"), ("add", "O", "[O]"),
+             ("add", "H3N", "N"), ("add", "N", "[N]"), ("rm", "CO"), ("rm", "O"), ("rm", "N"), ("rm", "H2O"),
+             ("add", "pentavalentC", "C(C)(C)(C)(C)C"), ("bulk", [("badarom", "c1cccc1"), ("EtOH", "CCO"), ("F3", "F(F)F")])]
 DUPF = [("H2O", "OO"), ("EtOH", "COC")]
 DUPS = [("water", "O"), ("ethanol", "CCO")]
 OPS = ([("add", f, s) for f, s in VALID + INVALID + DUPF + DUPS]
@@ -196,7 +202,8 @@ def run_history(ops, init, res, name="empty"):
     res.count("histories")
 
 
-def dfs(first, depth, res):
+def dfs(first, depth, res, OPS=None, counter="exhaustive_histories"):
+    OPS = OPS or globals()["OPS"]
     """prefix-sharing depth-first enumeration of every history of length <= depth that starts with
     OPS[first]; the database list is snapshotted/restored at each node (records are never mutated)"""
     cls = monitored_class()
@@ -229,7 +236,7 @@ def dfs(first, depth, res):
         model.db = snap_model
 
     rec(first, [], 0, 0, 1)
-    res.count("exhaustive_histories", full[0])
+    res.count(counter, full[0])
     if sample:
         res.sample({"history": sample[0]})
 
@@ -241,6 +248,7 @@ def plan(tier, seed):
     shards += [{"rand": {"n": 70 if q else 1700, "salt": i, "init": init}}
                for i, init in enumerate(["empty", "manager", "automated"])]
     shards.append({"periodic": True})
+    shards += [{"alias": {"first": i, "depth": 5 if q else 6}} for i in range(len(ALIAS_OPS))]
     return shards
 
 
@@ -271,6 +279,8 @@ def work(shard, res, tier, seed):
             res.violations.clear()
             run_history(ops, init, res, name)
         return
+    if "alias" in shard:
+        dfs(shard["alias"]["first"], shard["alias"]["depth"], res, OPS=ALIAS_OPS, counter="exhaustive_alias_histories")
     if "exh" in shard:
         first, depth = shard["exh"]["first"], shard["exh"]["depth"]
         dfs(first, depth, res)
@@ -309,6 +319,7 @@ def work(shard, res, tier, seed):
         initial_duplicates(init, sp["init"], res)
         pool = VALID + INVALID + DUPF + DUPS + [(r["formula"], r["smiles"]) for r in load("manager")[:25]]
         pool += [("C2H6O", "OCC"), ("Th+4", "[Th+4]"), ("ZW", "[NH3+]CC(=O)[O-]"), ("bad3", "c1ccc"), ("e", "")]
+        pool += IMPOSSIBLE + [(o[1], o[2]) for o in ALIAS_OPS if o[0] == "add"]
         for i in range(sp["n"]):
             ops = [random_op(rng, pool) for _ in range(30)]
             run_history(ops, init, res, sp["init"])
@@ -331,7 +342,7 @@ def conclude_args(res, tier, seed):
     total = len(OPS) ** depth
     ex = res.counters.get("exhaustive_histories", 0) == total
     return {"need": {"invariant_evaluations": 1000, "histories": 1000, "random_histories:manager": 10,
-                     "periodic_entries_added": 600},
+                     "periodic_entries_added": 600, "exhaustive_alias_histories": 1000},
             "min_cases": 100,
             "extra": {"exhaustive_subspace": "all %d^%d = %d histories over the %d-operation alphabet from the empty "
                       "database enumerated completely: %s" % (len(OPS), depth, total, len(OPS), ex)}}
